@@ -88,6 +88,10 @@ pub struct Scenario {
     pub mix: u8,
     /// run alongside unrelated agents (C20 variant)
     pub noise: bool,
+    /// tx: only this request of the history is sent, at the instant and under the configuration it has
+    /// in the full history (projection onto one transaction, C20's leak clause)
+    #[serde(default, skip_serializing_if = "Option::is_none")]
+    pub only: Option<usize>,
 }
 
 pub struct Outcome {
@@ -892,12 +896,12 @@ fn fractional(sc: &Scenario) -> Outcome {
 pub fn teardown_scenarios() -> Vec<Scenario> {
     let mut v = Vec::new();
     for tcp in [false, true] {
-        v.push(Scenario { family: "tx".into(), tcp, kind: 4, n: 3, via: 1, mix: 1, noise: false });
-        v.push(Scenario { family: "tx".into(), tcp, kind: 5, n: 17, via: 0, mix: 0, noise: false });
-        v.push(Scenario { family: "peers".into(), tcp, kind: 4, n: 17, via: 2, mix: 0, noise: false });
-        v.push(Scenario { family: "peers".into(), tcp, kind: 0, n: 3, via: 0, mix: 0, noise: false });
-        v.push(Scenario { family: "sizes".into(), tcp, kind: 0, n: 3, via: 0, mix: 0, noise: false });
-        v.push(Scenario { family: "responses".into(), tcp, kind: 1, n: 2, via: 1, mix: 0, noise: false });
+        v.push(Scenario { family: "tx".into(), tcp, kind: 4, n: 3, via: 1, mix: 1, noise: false, only: None });
+        v.push(Scenario { family: "tx".into(), tcp, kind: 5, n: 17, via: 0, mix: 0, noise: false, only: None });
+        v.push(Scenario { family: "peers".into(), tcp, kind: 4, n: 17, via: 2, mix: 0, noise: false, only: None });
+        v.push(Scenario { family: "peers".into(), tcp, kind: 0, n: 3, via: 0, mix: 0, noise: false, only: None });
+        v.push(Scenario { family: "sizes".into(), tcp, kind: 0, n: 3, via: 0, mix: 0, noise: false, only: None });
+        v.push(Scenario { family: "responses".into(), tcp, kind: 1, n: 2, via: 1, mix: 0, noise: false, only: None });
     }
     v
 }
@@ -1040,6 +1044,9 @@ fn transactions(sc: &Scenario) -> Outcome {
         }};
     }
     for i in 0..sc.n {
+        if sc.only.is_some_and(|o| o != i) {
+            continue;
+        }
         noise.tick(base);
         let to = saddr(4, i % 7);
         let sw = Software::new(&format!("scale-{i}")).unwrap();
@@ -1185,8 +1192,9 @@ fn transactions(sc: &Scenario) -> Outcome {
             breach!("C05", "scale/completed-more-than-once", "a request completed more than once", "1".to_string(), format!("{c} completions of {k:#x}"));
         }
     }
-    if done.len() != sc.n {
-        breach!("C05", "scale/lost-request", "not every request completed", sc.n.to_string(), done.len().to_string());
+    let expected_done = if sc.only.is_some() { sc.n.min(1) } else { sc.n };
+    if done.len() != expected_done {
+        breach!("C05", "scale/lost-request", "not every request completed", expected_done.to_string(), done.len().to_string());
     }
     // idle agent afterwards: no event
     if !matches!(a.poll(at(now + 1_000)), StunAgentPollRet::WaitUntil(_)) {
@@ -1259,6 +1267,21 @@ pub fn judge(prop: &str, sc: &Scenario, acc: &mut Acc) {
             }
         }
     }
+    if prop == "C20" && sc.family == "tx" && sc.n >= 2 && sc.only.is_none() && o.breaches.iter().any(|b| b.0 == "C06") {
+        // "instants passed to one call do not leak into another transaction's schedule": the joint history
+        // breaches a timing clause; each request of it alone (sent at its own instant, under its own
+        // configuration, answered as in the joint history) is served on schedule -> the breach needs the
+        // other transactions' calls
+        let solo_clean = (0..sc.n).all(|i| {
+            let mut solo = sc.clone();
+            solo.only = Some(i);
+            on_fresh_thread(solo).breaches.is_empty()
+        });
+        if solo_clean {
+            let b = o.breaches.iter().find(|b| b.0 == "C06").unwrap();
+            acc.violation(Violation::new("C20", "scale/cross-transaction-leak", format!("the schedule of a request depends on calls made for other requests: the history of {} requests breaches `{}` ({}), each of its requests alone follows the schedule", sc.n, b.1, b.2), b.3.clone(), b.4.clone(), replay_value(sc)));
+        }
+    }
     if prop == "C20" {
         let o2 = on_fresh_thread(sc.clone());
         let mut noisy = sc.clone();
@@ -1314,7 +1337,7 @@ pub fn scenarios(prop: &str, thorough: bool) -> Vec<Scenario> {
                         if kind == 1 && n > 60_000 {
                             continue;
                         }
-                        v.push(Scenario { family: "peers".into(), tcp, kind, n, via, mix: 0, noise: false });
+                        v.push(Scenario { family: "peers".into(), tcp, kind, n, via, mix: 0, noise: false, only: None });
                     }
                 }
             }
@@ -1325,7 +1348,7 @@ pub fn scenarios(prop: &str, thorough: bool) -> Vec<Scenario> {
             for l in 0..N_SPECIAL {
                 for d in 0..N_SPECIAL {
                     for via in 0..=3u8 {
-                        v.push(Scenario { family: "addr".into(), tcp, kind: l as u8, n: d, via, mix: ((l + d) % 2) as u8, noise: false });
+                        v.push(Scenario { family: "addr".into(), tcp, kind: l as u8, n: d, via, mix: ((l + d) % 2) as u8, noise: false, only: None });
                     }
                 }
             }
@@ -1334,12 +1357,12 @@ pub fn scenarios(prop: &str, thorough: bool) -> Vec<Scenario> {
     if matches!(prop, "C05" | "C15") {
         for tcp in [false, true] {
             for block in 0..16usize {
-                v.push(Scenario { family: "contents".into(), tcp, kind: 255, n: block, via: 0, mix: 0, noise: false });
+                v.push(Scenario { family: "contents".into(), tcp, kind: 255, n: block, via: 0, mix: 0, noise: false, only: None });
             }
             // every attribute type in a response / indication (mix 1 = receiving side)
             for len in [0u8, 4, 8] {
                 for block in 0..256usize {
-                    v.push(Scenario { family: "contents".into(), tcp, kind: len, n: block, via: 0, mix: 1, noise: false });
+                    v.push(Scenario { family: "contents".into(), tcp, kind: len, n: block, via: 0, mix: 1, noise: false, only: None });
                 }
             }
         }
@@ -1352,12 +1375,12 @@ pub fn scenarios(prop: &str, thorough: bool) -> Vec<Scenario> {
                         continue;
                     }
                     for block in 0..256usize {
-                        v.push(Scenario { family: "contents".into(), tcp, kind: len, n: block, via, mix: 0, noise: false });
+                        v.push(Scenario { family: "contents".into(), tcp, kind: len, n: block, via, mix: 0, noise: false, only: None });
                     }
                     if len == 4 {
                         // every method (16 blocks of 256)
                         for block in 0..16usize {
-                            v.push(Scenario { family: "contents".into(), tcp, kind: 255, n: block, via, mix: 0, noise: false });
+                            v.push(Scenario { family: "contents".into(), tcp, kind: 255, n: block, via, mix: 0, noise: false, only: None });
                         }
                     }
                 }
@@ -1368,17 +1391,17 @@ pub fn scenarios(prop: &str, thorough: bool) -> Vec<Scenario> {
         for tcp in [false, true] {
             for via in [0u8, 1] {
                 for block in 0..35usize {
-                    v.push(Scenario { family: "sizes".into(), tcp, kind: 0, n: block, via, mix: 0, noise: false });
+                    v.push(Scenario { family: "sizes".into(), tcp, kind: 0, n: block, via, mix: 0, noise: false, only: None });
                 }
             }
-            v.push(Scenario { family: "sizes".into(), tcp, kind: 1, n: 0, via: 0, mix: 0, noise: false });
+            v.push(Scenario { family: "sizes".into(), tcp, kind: 1, n: 0, via: 0, mix: 0, noise: false, only: None });
         }
     }
     if prop == "C15" {
         for tcp in [false, true] {
             for kind in 0..4u8 {
                 for via in 0..3u8 {
-                    v.push(Scenario { family: "ownaddr".into(), tcp, kind, n: 1, via, mix: 0, noise: false });
+                    v.push(Scenario { family: "ownaddr".into(), tcp, kind, n: 1, via, mix: 0, noise: false, only: None });
                 }
             }
         }
@@ -1387,7 +1410,7 @@ pub fn scenarios(prop: &str, thorough: bool) -> Vec<Scenario> {
         for tcp in [false, true] {
             for kind in 0..3u8 {
                 for n in [1usize, 255, 256, 257, 65_535, 65_536, 65_537, 70_001] {
-                    v.push(Scenario { family: "lifetime".into(), tcp, kind, n, via: 0, mix: 0, noise: false });
+                    v.push(Scenario { family: "lifetime".into(), tcp, kind, n, via: 0, mix: 0, noise: false, only: None });
                 }
             }
         }
@@ -1398,13 +1421,13 @@ pub fn scenarios(prop: &str, thorough: bool) -> Vec<Scenario> {
                 for block in 0..=8usize {
                     for via in 0..5u8 {
                         for mix in [0u8, 1] {
-                            v.push(Scenario { family: "responses".into(), tcp, kind, n: block, via, mix, noise: false });
+                            v.push(Scenario { family: "responses".into(), tcp, kind, n: block, via, mix, noise: false, only: None });
                         }
                     }
                     // MESSAGE-INTEGRITY-SHA256 of every declared length 0..=32 (codes 400..=449 and success)
                     if block == 2 || block == 8 {
                         for n in 0..=32u8 {
-                            v.push(Scenario { family: "responses".into(), tcp, kind, n: block, via: 10 + n, mix: 0, noise: false });
+                            v.push(Scenario { family: "responses".into(), tcp, kind, n: block, via: 10 + n, mix: 0, noise: false, only: None });
                         }
                     }
                 }
@@ -1415,7 +1438,7 @@ pub fn scenarios(prop: &str, thorough: bool) -> Vec<Scenario> {
         for tcp in [false, true] {
             for retransmits in 0..=12u8 {
                 for n in 0..32usize {
-                    v.push(Scenario { family: "fractional".into(), tcp, kind: retransmits, n, via: 0, mix: 0, noise: false });
+                    v.push(Scenario { family: "fractional".into(), tcp, kind: retransmits, n, via: 0, mix: 0, noise: false, only: None });
                 }
             }
         }
@@ -1424,7 +1447,7 @@ pub fn scenarios(prop: &str, thorough: bool) -> Vec<Scenario> {
         for tcp in [false, true] {
             for mix in [0u8, 1] {
                 for n in 0..4usize {
-                    v.push(Scenario { family: "phase".into(), tcp, kind: 0, n, via: 0, mix, noise: false });
+                    v.push(Scenario { family: "phase".into(), tcp, kind: 0, n, via: 0, mix, noise: false, only: None });
                 }
             }
         }
@@ -1438,11 +1461,11 @@ pub fn scenarios(prop: &str, thorough: bool) -> Vec<Scenario> {
                     for n in sizes {
                         // kind = spacing of the sends: 4 all at one instant, 5 137 us apart, 6 1 ms apart, 7 333 us apart
                         let kind = 4 + ((n + via as usize + mix as usize) % 4) as u8;
-                        v.push(Scenario { family: "tx".into(), tcp, kind, n, via, mix, noise: false });
+                        v.push(Scenario { family: "tx".into(), tcp, kind, n, via, mix, noise: false, only: None });
                         if n <= 17 {
                             for k in 4..8u8 {
                                 if k != kind {
-                                    v.push(Scenario { family: "tx".into(), tcp, kind: k, n, via, mix, noise: false });
+                                    v.push(Scenario { family: "tx".into(), tcp, kind: k, n, via, mix, noise: false, only: None });
                                 }
                             }
                         }
